@@ -424,6 +424,59 @@ theorem threadRun_shape {J : Type} (parse : String → Except Err J) (clock : Na
     refine .inr (.inr ⟨pre, a, ?_, fun x hx => h1 x (by simp [hx]), hpre, hla⟩)
     simp only [b2, if_true, b1, Bool.not_false, Bool.true_and]
 
+def SAct.isExit {J : Type} : SAct J → Bool
+  | .exit => true
+  | _ => false
+
+/-- Consequences of `ThreadShape` for the exit callback. -/
+theorem ThreadShape.exit_last {J : Type} {doPing : Bool} {cs cp : Callee} {exitCb : Bool}
+    {frames : List Frame} {run : StatusRunS J} (h : ThreadShape doPing cs cp exitCb frames run) :
+    (SAct.exit ∈ run.acts ↔ exitCb = true ∧ SAct.disconnect ∈ run.acts) ∧
+    (SAct.exit ∈ run.acts → run.acts.getLast? = some .exit ∧ run.connected = false ∧
+      run.threadEnded = true ∧ run.error = none) ∧
+    (SAct.disconnect ∈ run.acts → run.connected = false ∧ run.threadEnded = true ∧
+      run.error = none) ∧
+    run.acts.countP SAct.isExit ≤ 1 := by
+  have nl : ∀ (l : List (SAct J)), (∀ a ∈ l, a.isLoopAct = true) → SAct.exit ∉ l :=
+    fun l hl he => by cases hl _ he
+  have nc : ∀ (l : List (SAct J)), (∀ a ∈ l, a.isLoopAct = true) → l.countP SAct.isExit = 0 := by
+    intro l hl
+    rw [List.countP_eq_zero]
+    intro a ha
+    have := hl a ha
+    cases a <;> simp_all [SAct.isLoopAct, SAct.isExit]
+  rcases h with ⟨acts, rfl, h1, h2⟩ | ⟨pre, e, rfl, h1, h2⟩ | ⟨pre, a, rfl, h1, h2, h3⟩
+  · refine ⟨⟨fun he => absurd he (nl _ h1), fun he => absurd he.2 h2⟩,
+      fun he => absurd he (nl _ h1), fun he => absurd he h2, ?_⟩
+    simp only [nc _ h1]; omega
+  · have hne : SAct.exit ∉ pre ++ [SAct.excHandlers e, .disconnectImmediate] := by
+      simp only [List.mem_append, List.mem_cons, List.not_mem_nil, or_false, reduceCtorEq]
+      exact nl _ h1
+    have hnd : SAct.disconnect ∉ pre ++ [SAct.excHandlers e, .disconnectImmediate] := by
+      simp only [List.mem_append, List.mem_cons, List.not_mem_nil, or_false, reduceCtorEq]
+      exact h2
+    refine ⟨⟨fun he => absurd he hne, fun he => absurd he.2 hnd⟩, fun he => absurd he hne,
+      fun he => absurd he hnd, ?_⟩
+    simp only [List.countP_append, nc _ h1, List.countP_cons, List.countP_nil, SAct.isExit]
+    simp
+  · have hae : a ≠ .exit := by
+      rcases h3 with ⟨⟨d, rfl⟩, _⟩ | ⟨⟨l, rfl⟩, _⟩ <;> exact fun h => by cases h
+    have haex : SAct.isExit a = false := by
+      rcases h3 with ⟨⟨d, rfl⟩, _⟩ | ⟨⟨l, rfl⟩, _⟩ <;> rfl
+    cases exitCb with
+    | false =>
+      have hne : SAct.exit ∉ pre ++ [SAct.disconnect, a] ++ [] := by
+        simp only [List.append_nil, List.mem_append, List.mem_cons, List.not_mem_nil, or_false,
+          reduceCtorEq, false_or, not_or]
+        exact ⟨nl _ h1, fun h => hae h.symm⟩
+      refine ⟨⟨fun he => absurd he hne, fun he => by cases he.1⟩, fun he => absurd he hne,
+        fun _ => ⟨rfl, rfl, rfl⟩, ?_⟩
+      simp [List.countP_append, nc _ h1, SAct.isExit]
+    | true =>
+      refine ⟨⟨fun _ => ⟨rfl, by simp⟩, fun _ => by simp⟩, fun _ => ⟨by simp, rfl, rfl, rfl⟩,
+        fun _ => ⟨rfl, rfl, rfl⟩, ?_⟩
+      simp [List.countP_append, nc _ h1, List.countP_cons, SAct.isExit]
+
 /-- Everything the thread logs is a loop action or one of the three closing actions. -/
 theorem threadRun_acts_mem {J : Type} (parse : String → Except Err J) (clock : Nat → Nat)
     (doPing : Bool) (cs cp : Callee) (exitCb : Bool) (frames : List Frame)
